@@ -251,6 +251,20 @@ def check(case):
                         f"step {ti}: gradient handed to the optimizer for {net}.{pn} is not positive phase"
                         + (" minus the mean energy gradient of the k-step chain states" if net == "rbm_am" else " only"),
                         got=g.tolist(), ref=want.tolist(), neg_rows=int(vk.shape[0]), pos_rows=int(bt["pos"].shape[0]))
+        if ti == 0:
+            # precision tier (first step: the rows' conditioning was verified at these parameters): reference in product form, ~2e-10 of the scale
+            with R.library_precision():
+                pos_p, neg_p = ref_grads(sc_t, brows, with_Z=False, mean=True), energy_grad_mean(sc_t, vk)
+            for net in nets:
+                key = "am" if net == "rbm_am" else "ph"
+                for pn, g in stp["grads"][net].items():
+                    want = pos_p[key][NAMES[pn]].reshape(g.shape)
+                    if net == "rbm_am":
+                        want = want - neg_p[NAMES[pn]].reshape(g.shape)
+                    tol = (2e-10 + 50 * 2.2e-16 / min(probs)) * (1 + (float(want.abs().max()) if want.numel() else 0.0))
+                    require(bool(torch.all((g.double() - want).abs() <= tol)), f"precision:cd-gradient:{net}.{pn}",
+                            f"step 0: the gradient handed to the optimizer for {net}.{pn} is not accurate to double precision (2e-10 of its scale)",
+                            worst=float((g.double() - want).abs().max()) if want.numel() else 0.0, scale=float(want.abs().max()) if want.numel() else 0.0)
         followed += 1
     tail = N % case["pbs"] != 0
     nt = (nbs != case["pbs"]) and tail and case["k"] >= 1 and followed >= 2 and (t == "positive" or rotated_seen) and gen.all_biases_nonzero(sc)
